@@ -18,7 +18,7 @@ import (
 
 type flatStats struct {
 	queries, sat, unsat, unknown, byAlt int
-	time                         time.Duration
+	time                                time.Duration
 }
 
 var flat flatStats
